@@ -84,7 +84,8 @@ def replay(c):
     if c.get('kind') == 'settings':
         return replay_settings(c)
     m, si = c['m'], c['symbolic_record']
-    args = [build(c['record'] if i == si else None, i) for i in range(m)]
+    recs = c.get('records') or [c['record'] if i == si else None for i in range(m)]
+    args = [build(recs[i], i) for i in range(m)]
     buf = io.StringIO()
     bad = []
     try:
@@ -144,8 +145,8 @@ def replay_settings(c):
     buf = io.StringIO()
     boards = []
     for i in range(c['m']):
-        r = c['record'] if i == c['symbolic_record'] else dict(dealer=1 + i % 4, vul=1 + (i + 1) % 4, names={'board_id': f'f{i}'},
-                                                                 deal={'1': [0, 1], '2': [13], '3': [], '4': [51]}, dda=None)
+        r = c['records'][i] if c.get('records') else (c['record'] if i == c['symbolic_record'] else dict(
+            dealer=1 + i % 4, vul=1 + (i + 1) % 4, names={'board_id': f'f{i}'}, deal={'1': [0, 1], '2': [13], '3': [], '4': [51]}, dda=None))
         dda = None if r['dda'] is None else {Player(p + 1): {Suit(s + 1): r['dda'][p][s] for s in range(5)} for p in range(4)}
         boards.append(dict(board_id=r['names']['board_id'], dealer=Player(r['dealer']), vul=Vul(r['vul']), dda=dda,
                            deal=Hands(*[{card_of(x) for x in r['deal'][str(p)]} for p in range(1, 5)])))
